@@ -96,3 +96,8 @@ Proof. reflexivity. Qed.
 
 Example ex_refines_premise : length ex_name < undo_fuel ex_name.
 Proof. unfold undo_fuel. lia. Qed.
+
+(* the chunk-by-chunk transcription of git's C loop (Spec.git_quote_c_style, the function compared
+   with real git by the check) terminates within its fuel and equals the byte-wise [quote] *)
+Theorem git_loop_is_quote : forall fully name, git_quote_c_style fully name = Some (quote fully name).
+Proof. exact git_quote_c_style_quote. Qed.
